@@ -1,5 +1,5 @@
-\* C30 quick: every placement of 1 or 2 duplicated relays, n in 5..17, every leaf
-CONSTANTS NMin = 5  NMax = 17  Variants <- MCVariants  Mode = "dups"  MaxDups = 2  MaxDupN = 17
+\* C30 quick: every placement of 1 duplicated relay for n in 5..17 and of 2 for n <= 12, every leaf
+CONSTANTS NMin = 5  NMax = 17  Variants <- MCVariants  Mode = "dups"  MaxDups = 2  MaxDupN = 12
           GateHeights <- MCGateHeights
 INIT Init
 NEXT NextCover
